@@ -171,12 +171,16 @@ def run(ctx):
         samples=[list(a) for a in args[:3]],
         evaluations=nextra, distinct=sum(1 for r in results if r["extra"] > 0),
         explanation="Per-model theorems make ask(n, False) a no-op and ask(n, True) the fold of tell_pending; the models are tied "
-                    "to the code by the lock-step checks C01/C02/C15/C16/C17/C18. LearnerND and IntegratorLearner implement the "
-                    "roll-back with utils.restore (snapshot of the attribute dictionary): for them only the twin oracle applies.",
+                    "to the code by the lock-step checks C01/C02/C04/C07/C15/C16/C17/C18. LearnerND and IntegratorLearner implement the "
+                    "roll-back with utils.restore (snapshot of the attribute dictionary): their models return the state they were given "
+                    "(lnd_ask_nocommit_noop, integ_ask_nocommit_noop); a request that raises must leave no trace either (twin oracle).",
         trusted=core.COMMON_TRUSTED + ["copy.deepcopy of a learner's __dict__ is an exact snapshot (utils.restore)"],
         assumptions=["Learner2D is exercised since its NumPy 2 / SciPy 1.15 breakage was repaired (fix: commits)"],
         extra={"kinds": dist, "non_committing_asks_that_raised_and_left_the_state_unchanged": nfailed, "histories_aborted_by_exception_on_both_twins": aborted},
-        partial=["LearnerND / IntegratorLearner / Learner2D have no Lean model of their ask roll-back: twin oracle only"],
+        partial=["LearnerND / IntegratorLearner: the roll-back half is proved on the models LND.lean / Integ.lean (state returned as given, also when "
+                 "the request fails; same points and error class as the committing ask); the committing half (ask(n, True) = marking each "
+                 "returned point pending) is not proved for them: twin oracle only",
+                 "Learner2D has no Lean model: twin oracle only"],
     )
 
 
